@@ -286,6 +286,36 @@ def _call(args):
                 "error": f"{type(e).__name__}: {e}\n{traceback.format_exc()[-1500:]}"}
 
 
+class ModuleStateGuard:
+    """Module-level mutable containers (dict / list / set globals) of the code under check are part of its state: a path of the
+    explorer must start from the state the module had when it was imported, not from what earlier paths left behind (a memo table
+    or an interning cache added by a change would otherwise leak symbolic values between paths and make counterexamples
+    irreproducible).  reset() restores, in place, the content those containers had when the guard was created."""
+
+    def __init__(self, *modules):
+        self.saved = []
+        for m in modules:
+            for name, val in list(vars(m).items()):
+                if name.startswith("__"):
+                    continue
+                if type(val) in (dict, list, set):
+                    self.saved.append((m, name, type(val)(val)))
+        self.modules = modules
+        self.names = {(m.__name__, n) for m, n, _ in self.saved}
+
+    def reset(self):
+        for m, name, content in self.saved:
+            cur = getattr(m, name, None)
+            if type(cur) is type(content):
+                cur.clear()
+                (cur.update if isinstance(cur, (dict, set)) else cur.extend)(content)
+        # containers that did not exist at import time (created lazily) are emptied as well
+        for m in self.modules:
+            for name, val in list(vars(m).items()):
+                if not name.startswith("__") and type(val) in (dict, list, set) and (m.__name__, name) not in self.names:
+                    val.clear()
+
+
 def pmap(fn: Callable[[Any], dict], items: List[Any], procs: Optional[int] = None, chunksize: int = 1) -> List[dict]:
     procs = procs or NPROC
     if procs <= 1 or len(items) <= 1:
